@@ -1,10 +1,10 @@
 #!/bin/bash
-# seeds.sh <tier> <seed...>: run every claimed check with the given seeds against a snapshot tree ($VERIF_REPO or /repo)
+# seeds.sh <tier> <seed...>: run every claimed check (or those in $PIDS) with the given seeds against $VERIF_REPO or /repo
 TIER=$1; shift
 cd /verif
 export VERIF_WORK_SUFFIX=_bg$$
 for seed in "$@"; do
-  for pid in $(python3 -c "import json; print(' '.join(c['property_id'] for c in json.load(open('/verif/MANIFEST.json'))['checks']))"); do
+  for pid in ${PIDS:-$(python3 -c "import json; print(' '.join(c['property_id'] for c in json.load(open('/verif/MANIFEST.json'))['checks']))")}; do
     out=$(VERIF_SEED=$seed bin/check $pid --tier $TIER 2>&1); rc=$?
     echo "seed=$seed $pid rc=$rc $(echo "$out" | tail -1)"
     if [ $rc -ne 0 ]; then echo "$out" | grep -A1 -E "^VIOLATION|^INFRA" | head -6; fi
